@@ -1,13 +1,15 @@
 import GrmVerif.Lemmas.LRSound
+import GrmVerif.Lemmas.LRComplete2
+import GrmVerif.Props.C17
 /-!
-# C01 — a generated parser recognises exactly the grammar's language  (stage 1: soundness, no crash)
+# C01 — a generated parser recognises exactly the grammar's language
 
 `Cert.check G A` is the validator evaluated on the automaton and table the real code built
 (`Model/Cert.lean`); `LR.parse` is the model of `Parser::lr` (`Model/LR.lean`), compared with the
 real parser on every generated input. The theorems hold for EVERY input `w`, every fuel.
 -/
 namespace GrmVerif.C01
-open GrmVerif Cert LR
+open GrmVerif Cert LR Spec Ref
 
 theorem run_inv {G : Grammar} {A : Automaton} (P : Props G A) {w : List Nat} (hw : InputOk G w) :
     ∀ (fuel : Nat) (c : Cfg), Inv G A w c →
@@ -48,5 +50,74 @@ or a malformed accept, for any input. -/
 theorem lr_no_crash (G : Grammar) (A : Automaton) (hc : check G A = true) (w : List Nat) (hw : InputOk G w)
     (fuel : Nat) (n : Nat) : parse G A w fuel ≠ .crash n :=
   (run_inv (check_props G A hc) hw fuel (init A) (inv_init w)).1 n
+
+/-- `w` is a sentence: some valid tree rooted at the user's start rule has yield `w` -/
+def Sentence (G : Grammar) (w : List Nat) : Prop :=
+  ∃ T S, Tree.valid G T = true ∧ G.rhs G.startProd = [.rule S] ∧ Tree.root G T = .rule S ∧ Tree.yield T = w
+
+/-- **Completeness.** On an automaton that passes the certificate and its lookahead half `checkLA`
+(LR(1) closure/edge lookaheads, and a table that holds every candidate action — which is what
+"construction reports no conflicts" means for a table without precedence-resolved cells), every
+sentence is accepted, and the tree returned is the sentence's own derivation tree (same shape:
+the grammar is unambiguous). `N`, `F` are the verified nullable/FIRST sets of C17. -/
+theorem lr_complete (G : Grammar) (A : Automaton) (hc : check G A = true)
+    (An : Analyses) (hAn : analyses G = some An)
+    (hla : checkLA G A (An.nullable.contains ·) (An.first.contains ·) = true)
+    (w : List Nat) (hw : InputOk G w) (T : Tree) (S : Nat)
+    (hv : Tree.valid G T = true) (hS : G.rhs G.startProd = [.rule S]) (hroot : Tree.root G T = .rule S)
+    (hy : Tree.yield T = w) :
+    ∃ fuel T', parse G A w fuel = .accept T' ∧ shape T' = shape T := by
+  have P := check_props G A hc
+  have PL := checkLA_props G A _ _ hla
+  obtain ⟨hn, hf, _⟩ := C17.analyses_exact G P.wf An hAn
+  have hN : ∀ r, (fun x => An.nullable.contains x) r = true ↔ NullableR G r := by intro r; simpa using hn r
+  have hF : ∀ r t, (fun x => An.first.contains x) (r, t) = true ↔ FirstP G r t := by intro r t; simpa using hf r t
+  -- the start item with end-of-input in its lookahead
+  obtain ⟨k, hk, hkp, hkd⟩ := P.startHas
+  obtain ⟨i, hi, hip, hid, hila⟩ := PL.coreLA A.start P.startLt k hk
+  have heof : G.eof ∈ i.la := hila _ (PL.startLA k hk)
+  have hsym : symAt G i.p i.dot = some (Tree.root G T) := by
+    rw [hip, hkp, hid, hkd, hroot]; simp [symAt, hS]
+  have hdrop : w.drop (init A).laidx = Tree.yield T ++ [] := by simp [init, hy]
+  have hnext : nextTok G w ((init A).laidx + (Tree.yield T).length) = G.eof := by
+    rw [hy]; exact (nextTok_eof hw _).mpr (by simp [init])
+  have hcompat : firstSeqL (fun x => An.nullable.contains x) (fun x => An.first.contains x)
+      ((G.rhs i.p).drop (i.dot + 1)) i.la (nextTok G w ((init A).laidx + (Tree.yield T).length)) = true := by
+    rw [hnext, hip, hkp, hid, hkd, hS]
+    simp [firstSeqL, seqNullable, heof]
+  obtain ⟨s', T', j, hsteps, hs', hshape, hj, hjp, hjd, hjla⟩ :=
+    tree_run P PL hN hF hw T hv (init A) A.start [] i [] rfl P.startLt hi hsym hdrop hcompat
+  -- in the reached state `[^ → S .]` with end-of-input: accept
+  have hcomplete : symAt G j.p j.dot = none := by
+    rw [hjp, hip, hkp, hjd, hid, hkd]; simp [symAt, hS]
+  have hacc := PL.actAcceptC s' hs' j hj hcomplete (by rw [hjp, hip, hkp]) G.eof (hjla _ heof)
+  have hT' : ∃ p kids, T' = .node p kids := by
+    cases T with
+    | leaf t i => simp [Tree.root] at hroot
+    | node p kids =>
+      cases T' with
+      | leaf t i => simp [shape] at hshape
+      | node p' kids' => exact ⟨p', kids', rfl⟩
+  obtain ⟨p', kids', rfl⟩ := hT'
+  have hdone : step G A w ⟨[s', A.start], [.node p' kids'], (init A).laidx + (Tree.yield T).length⟩ =
+      .done (.accept (.node p' kids')) := by
+    simp only [step, hnext, hacc, List.getLast?_singleton]
+  obtain ⟨fuel, hfuel⟩ := run_of_steps (by simpa [init] using hsteps) hdone
+  exact ⟨fuel, _, hfuel, hshape⟩
+
+/-- **The parser recognises exactly the language** (certified, conflict-free table): an input is
+accepted (for some fuel) iff it is a sentence. In particular every non-sentence is rejected. -/
+theorem lr_accepts_iff_sentence (G : Grammar) (A : Automaton) (hc : check G A = true)
+    (An : Analyses) (hAn : analyses G = some An)
+    (hla : checkLA G A (An.nullable.contains ·) (An.first.contains ·) = true)
+    (w : List Nat) (hw : InputOk G w) :
+    (∃ fuel t, parse G A w fuel = .accept t) ↔ Sentence G w := by
+  constructor
+  · rintro ⟨fuel, t, h⟩
+    obtain ⟨h1, ⟨S, hS, hr⟩, h3⟩ := lr_sound G A hc w hw fuel t h
+    exact ⟨t, S, h1, hS, hr, h3⟩
+  · rintro ⟨T, S, hv, hS, hr, hy⟩
+    obtain ⟨fuel, T', h, _⟩ := lr_complete G A hc An hAn hla w hw T S hv hS hr hy
+    exact ⟨fuel, T', h⟩
 
 end GrmVerif.C01
